@@ -8,6 +8,10 @@ write path, the read path and the allocator leave untouched.  Used by C17 (marke
 namespace WalrusVerif.Eng
 open WalrusVerif
 
+/-- the parts of the process state that only `open`/`close`/`persist`/`restart` and operations addressed
+to the second instance touch: directory contents (index, markers), the second instance, the addressed directory -/
+def Proc.side (p : Proc) : AMap Nat DirSt × Option Inst × Nat := (p.dirs, p.inst2, p.curDir)
+
 /-- what the clean-marker logic of an instance reads or writes -/
 def Inst.marks (i : Inst) : Nat × AMap Topic (Nat × Bool) × List Topic := (i.dir, i.cleanStates, i.cleanPending)
 
@@ -24,27 +28,27 @@ def Inst.marks (i : Inst) : Nat × AMap Topic (Nat × Bool) × List Topic := (i.
 @[simp] theorem marks_putReader (i : Inst) (t : Topic) (x : ColInfo) : (putReader i t x).marks = i.marks := rfl
 @[simp] theorem marks_setIndex (i : Inst) (t : Topic) (x : Pos) : (setIndex i t x).marks = i.marks := rfl
 
-@[simp] theorem dirs_createFile (p : Proc) (d : Nat) : (p.createFile d).1.dirs = p.dirs := rfl
+@[simp] theorem dirs_createFile (p : Proc) (d : Nat) : (p.createFile d).1.side = p.side := rfl
 
 theorem frame_getNextAvailableBlock (c : Cfg) (p : Proc) (i : Inst) :
-    (getNextAvailableBlock c p i).1.dirs = p.dirs ∧ (getNextAvailableBlock c p i).2.1.marks = i.marks := by
+    (getNextAvailableBlock c p i).1.side = p.side ∧ (getNextAvailableBlock c p i).2.1.marks = i.marks := by
   unfold getNextAvailableBlock
-  by_cases h : i.allocOff ≥ c.fileSize <;> simp [h, Inst.marks, Proc.createFile]
+  by_cases h : i.allocOff ≥ c.fileSize <;> simp [h, Inst.marks, Proc.createFile, Proc.side]
 
 theorem frame_allocBlock (c : Cfg) (p : Proc) (i : Inst) (want : Nat) (r : Proc × Inst × Blk)
-    (h : allocBlock c p i want = some r) : r.1.dirs = p.dirs ∧ r.2.1.marks = i.marks := by
+    (h : allocBlock c p i want = some r) : r.1.side = p.side ∧ r.2.1.marks = i.marks := by
   unfold allocBlock at h
   split at h
   · cases h
   · by_cases h2 : i.allocOff + (want + c.blockSize - 1) / c.blockSize * c.blockSize > c.fileSize <;>
-      simp [h2, Proc.createFile] at h <;> subst h <;> simp [Inst.marks]
+      simp [h2, Proc.createFile] at h <;> subst h <;> simp [Inst.marks, Proc.side]
 
 theorem frame_sealBlock (p : Proc) (i : Inst) (t : Topic) (b : Blk) (u : Nat) :
-    (sealBlock p i t b u).1.dirs = p.dirs ∧ (sealBlock p i t b u).2.marks = i.marks := by
+    (sealBlock p i t b u).1.side = p.side ∧ (sealBlock p i t b u).2.marks = i.marks := by
   unfold sealBlock; exact ⟨rfl, by simp⟩
 
 theorem frame_getOrCreateWriter (c : Cfg) (p : Proc) (i : Inst) (t : Topic) :
-    (getOrCreateWriter c p i t).1.dirs = p.dirs ∧ (getOrCreateWriter c p i t).2.1.marks = i.marks := by
+    (getOrCreateWriter c p i t).1.side = p.side ∧ (getOrCreateWriter c p i t).2.1.marks = i.marks := by
   unfold getOrCreateWriter
   split
   · exact ⟨rfl, rfl⟩
@@ -52,7 +56,7 @@ theorem frame_getOrCreateWriter (c : Cfg) (p : Proc) (i : Inst) (t : Topic) :
     exact ⟨this.1, this.2⟩
 
 theorem frame_writerWrite (c : Cfg) (p : Proc) (i : Inst) (t : Topic) (w : Writer) (pay : Pay) (flt : Option Fault) :
-    (writerWrite c p i t w pay flt).1.dirs = p.dirs ∧ (writerWrite c p i t w pay flt).2.1.marks = i.marks := by
+    (writerWrite c p i t w pay flt).1.side = p.side ∧ (writerWrite c p i t w pay flt).2.1.marks = i.marks := by
   unfold writerWrite
   by_cases hb : w.batching = true
   · simp [hb]
@@ -70,16 +74,16 @@ theorem frame_writerWrite (c : Cfg) (p : Proc) (i : Inst) (t : Topic) (w : Write
         have h2 := frame_allocBlock c p1 i1 _ _ ha
         simp only at h2 ⊢
         by_cases hf : flt = some ⟨0, 0⟩
-        · simp [hf, Inst.marks] at *; simp [h2, hs]
-        · by_cases hl : t.long = true <;> simp [hf, hl, Inst.marks] at * <;> simp [h2, hs]
+        · simp [hf, Inst.marks, Proc.side] at *; simp [h2, hs]
+        · by_cases hl : t.long = true <;> simp [hf, hl, Inst.marks, Proc.side] at * <;> simp [h2, hs]
     · simp only [hr, if_false]
       by_cases hf : flt = some ⟨0, 0⟩
-      · simp [hf, Inst.marks]
-      · by_cases hl : t.long = true <;> simp [hf, hl, Inst.marks]
+      · simp [hf, Inst.marks, Proc.side]
+      · by_cases hl : t.long = true <;> simp [hf, hl, Inst.marks, Proc.side]
 
 theorem frame_planBatch (c : Cfg) (t : Topic) (ps : List Pay) (p : Proc) (i : Inst) (b : Blk) (off : Nat)
     (acc : List (Blk × Nat × Pay)) :
-    (planBatch c t ps p i b off acc).1.dirs = p.dirs ∧ (planBatch c t ps p i b off acc).2.1.marks = i.marks := by
+    (planBatch c t ps p i b off acc).1.side = p.side ∧ (planBatch c t ps p i b off acc).2.1.marks = i.marks := by
   induction ps generalizing p i b off acc with
   | nil => exact ⟨rfl, rfl⟩
   | cons pay rest ih =>
@@ -101,7 +105,7 @@ theorem frame_planBatch (c : Cfg) (t : Topic) (ps : List Pay) (p : Proc) (i : In
         exact ⟨by rw [this.1, h2.1, hs.1], by rw [this.2, h2.2, hs.2]⟩
 
 theorem frame_writerBatchWrite (c : Cfg) (p : Proc) (i : Inst) (t : Topic) (w : Writer) (ps : List Pay) (flt : Option Fault) :
-    (writerBatchWrite c p i t w ps flt).1.dirs = p.dirs ∧ (writerBatchWrite c p i t w ps flt).2.1.marks = i.marks := by
+    (writerBatchWrite c p i t w ps flt).1.side = p.side ∧ (writerBatchWrite c p i t w ps flt).2.1.marks = i.marks := by
   unfold writerBatchWrite
   split
   · exact ⟨rfl, rfl⟩
@@ -124,7 +128,7 @@ theorem frame_writerBatchWrite (c : Cfg) (p : Proc) (i : Inst) (t : Topic) (w : 
               cases batchFails flt plan.length <;> exact this
 
 theorem frame_readNextLoop (c : Cfg) (t : Topic) (cp : Bool) (fuel : Nat) (p : Proc) (i : Inst) (info : ColInfo) :
-    (readNextLoop c t cp fuel p i info).1.dirs = p.dirs ∧ (readNextLoop c t cp fuel p i info).2.1.marks = i.marks := by
+    (readNextLoop c t cp fuel p i info).1.side = p.side ∧ (readNextLoop c t cp fuel p i info).2.1.marks = i.marks := by
   induction fuel generalizing p i info with
   | zero => exact ⟨rfl, rfl⟩
   | succ n ih =>
@@ -150,11 +154,11 @@ theorem frame_readNextLoop (c : Cfg) (t : Topic) (cp : Bool) (fuel : Nat) (p : P
           (repeat' split) <;> simp
 
 theorem frame_readNext (c : Cfg) (p : Proc) (i : Inst) (t : Topic) (cp : Bool) :
-    (readNext c p i t cp).1.dirs = p.dirs ∧ (readNext c p i t cp).2.1.marks = i.marks := by
+    (readNext c p i t cp).1.side = p.side ∧ (readNext c p i t cp).2.1.marks = i.marks := by
   unfold readNext; exact frame_readNextLoop ..
 
 theorem frame_statefulPlan (c : Cfg) (p : Proc) (i : Inst) (t : Topic) (m : Nat) (cp : Bool) :
-    (statefulPlan c p i t m cp).p.dirs = p.dirs ∧ (statefulPlan c p i t m cp).i.marks = i.marks := by
+    (statefulPlan c p i t m cp).p.side = p.side ∧ (statefulPlan c p i t m cp).i.marks = i.marks := by
   unfold statefulPlan; exact ⟨rfl, rfl⟩
 
 theorem marks_statefulCommit (i : Inst) (t : Topic) (info : ColInfo) (ps : PState) (cp : Bool) :
@@ -169,7 +173,7 @@ theorem marks_statefulCommit (i : Inst) (t : Topic) (info : ColInfo) (ps : PStat
     split <;> simp
 
 theorem frame_batchRead (c : Cfg) (p : Proc) (i : Inst) (t : Topic) (m : Nat) (cp : Bool) (st : Option Nat) :
-    (batchRead c p i t m cp st).1.dirs = p.dirs ∧ (batchRead c p i t m cp st).2.1.marks = i.marks := by
+    (batchRead c p i t m cp st).1.side = p.side ∧ (batchRead c p i t m cp st).2.1.marks = i.marks := by
   unfold batchRead
   cases st with
   | some r => simp only; split <;> exact ⟨rfl, rfl⟩
@@ -283,7 +287,7 @@ theorem batchAppendForTopic_ne_closed (c : Cfg) (p : Proc) (i : Inst) (t : Topic
   | some k => simp only at h ⊢; intro hk; injection hk with hk; exact h (by rw [hk])
 
 theorem frame_appendForTopic (c : Cfg) (p : Proc) (i : Inst) (t : Topic) (pay : Pay) (flt : Option Fault) :
-    (appendForTopic c p i t pay flt).1.dirs = p.dirs ∧
+    (appendForTopic c p i t pay flt).1.side = p.side ∧
       (appendForTopic c p i t pay flt).2.1.marks = (markClean i t false).marks := by
   unfold appendForTopic
   simp only
@@ -299,7 +303,7 @@ theorem frame_appendForTopic (c : Cfg) (p : Proc) (i : Inst) (t : Topic) (pay : 
   | none => exact ⟨by rw [h2.1, h1.1], by rw [marks_incCount, h2.2, h1.2]⟩
 
 theorem frame_batchAppendForTopic (c : Cfg) (p : Proc) (i : Inst) (t : Topic) (ps : List Pay) (flt : Option Fault) :
-    (batchAppendForTopic c p i t ps flt).1.dirs = p.dirs ∧
+    (batchAppendForTopic c p i t ps flt).1.side = p.side ∧
       (batchAppendForTopic c p i t ps flt).2.1.marks = (markClean i t false).marks := by
   unfold batchAppendForTopic
   simp only
